@@ -7,6 +7,12 @@ VERIF = os.path.dirname(os.path.dirname(os.path.abspath(__file__)))
 
 # id -> (technique, level text, level note, design ref)   -- only checks that exist under mc/checks are claimed
 CHECKS = {
+    "C01": ("bounded exhaustive enumeration of objects x serialization option sets, round-trip chain followed to its fixed point",
+            "Every generated valid instance of every type of both spec versions (frozen spec model; deviation bound 1, thorough 2), objects with custom properties / extensions, harness-registered custom object, observable, extension, top-level extension and marking types, bundles of all minimal objects, bundles with unregistered dicts, an observed-data container holding every 2.0 SCO, and 180 timestamp transplants (values moved between properties of different precision, as string / datetime / library value) are serialized under the 26 option sets, parsed back without naming the version and serialized again (two iterations). Clauses: strict JSON, same class and equal, byte-identical text, all option sets denote the same JSON value modulo spec-default optionals (recursive), pretty output in frozen specification order, canonical timestamps.",
+            "trusted: frozen spec model for instances, key order and defaults; equality is the library's own Mapping equality plus class identity", "DESIGN.md §3 C01"),
+    "C02": ("exhaustive single-fault enumeration (every slot x every corruption of its kind) against an independent validator driven by a frozen spec model",
+            "For every type of both spec versions, on the minimal and the maximal valid instance, every slot (recursively through lists, embedded objects, extensions, containers) x every corruption of the menu for its kind (null, every other JSON kind, removal, out-of-range, out-of-vocabulary, 13 timestamp and 14 identifier malformations, every forbidden reference target type, dictionary-key / hash / binary / hex malformations) + object-level corruptions (unknown properties, ~60 violated co-constraints, wrong type / spec_version, bad granular markings and external references) through constructor, parse(dict) and parse(text) in strict mode, plus permissively pre-built sub-object instances handed to strict parents; thorough adds every corruption x one extra valid optional property. Whatever is accepted must serialize to JSON the frozen validator accepts.",
+            "trusted: frozen validator mc/spec/model.py (MUST-level rules only, lenient where the specification is unclear; zero findings on the repository's example content); stix2patterns for patterns", "DESIGN.md §3 C02"),
     "C03": ("bounded exhaustive enumeration of specification-valid instances generated from a frozen spec model (deviation bound 1, thorough 2)",
             "For every type of STIX 2.0 and 2.1 (objects, observables, every pre-defined extension, embedded types, bundles): the minimal and maximal instance, minimal + each property x every value of its alphabet (all vocabulary entries, every legal reference target type, boundary numbers, false/0/'' values, timestamp spellings, long and repeated lists, nested dictionaries), unregistered extension-definition extensions in both orders, thorough: all pairs of optional properties; each in 3-4 entry contexts (parse(dict), parse(text), bundle member, observed-data member) and, for minimal/maximal instances, one granular-marking variant per addressable path. Strict parse must succeed and the include-optional-defaults serialization must contain every input property with an equal value (timestamps as exact instants), adding only spec-default optionals (compared recursively).",
             "trusted: frozen spec model mc/spec (bootstrapped once from the library tables, audited by hand, no stricter than the specification); generator output is re-validated by the frozen validator before use; stix2patterns for pattern syntax", "DESIGN.md §3 C03"),
